@@ -4,10 +4,12 @@ import random
 
 from .. import core, flow, corr_bm, oracles_bm as ob
 
-PROOFS = ['Tsv.Proofs.C03Alg', 'Tsv.Proofs.C03Reverse']
+PROOFS = ['Tsv.Proofs.C03Alg', 'Tsv.Proofs.C03Reverse', 'Tsv.Proofs.BMCore', 'Tsv.Proofs.C05', 'Tsv.Proofs.C03Model']
 TRUSTED = ["Lean 4.33 kernel + Mathlib", "vlib/sym.py tracer and vlib/emit.py emitter (validated each run: real code vs trace, "
            "Lean Float vs trace, bit for bit)", "IEEE rounding of the float evaluation is not modelled (field identities)",
-           "tree search (_loc/_split) is covered by the Brownian state-machine model of C05/C07 and by the real-code oracle"]
+           "C03Model.chen_W_any_history: additivity of W for every query history in the Brownian state-machine model (hypotheses "
+           "discharged for the regenerated kernels: genOps_bridgeAdditive / genOps_aggAdditive); the U / Levy-area relations across "
+           "histories rest on the kernel theorems + the model correspondence + the real-code oracle"]
 
 
 def oracle(rep, rng, n_cfg, n_hist, n_tr):
